@@ -3,6 +3,7 @@
 //     statements, no other Unlock call), and
 //   - the set of receiver fields it touches, transitively through calls to methods of the
 //     same receiver,
+//
 // as Lean definitions (O4/Generated/Facts/<Mod>.lean). Theorems that rest on a structural
 // assumption (mutex held across TestAndSet; reader and writer state disjoint) take the
 // corresponding definition as a hypothesis discharged by `decide`, so a change of the
@@ -22,13 +23,14 @@ import (
 )
 
 type method struct {
-	callNames map[string]bool // every call: "pkg.Func", "recv.method", "local.method", "func"
-	recvType string
-	name     string
-	locked   bool
-	prelock  map[string]bool // fields touched before the Lock() statement
-	fields   map[string]bool
-	calls    map[string]bool
+	callNames    map[string]bool // every call: "pkg.Func", "recv.method", "local.method", "func"
+	recvType     string
+	name         string
+	locked       bool
+	prelock      map[string]bool // fields touched before the Lock() statement
+	prelockCalls map[string]bool // calls made in the statements before the Lock() statement
+	fields       map[string]bool
+	calls        map[string]bool
 }
 
 func recvInfo(fd *ast.FuncDecl) (ident, typ string) {
@@ -62,6 +64,27 @@ func isCall(e ast.Expr, recv, name string) bool {
 	return ok && id.Name == recv
 }
 
+// collectCalls records the calls written below n as `f`, `x.f` / `pkg.F`, `sel.f`, `_.f`.
+func collectCalls(n ast.Node, into map[string]bool) {
+	ast.Inspect(n, func(n ast.Node) bool {
+		if x, ok := n.(*ast.CallExpr); ok {
+			switch f := x.Fun.(type) {
+			case *ast.Ident:
+				into[f.Name] = true
+			case *ast.SelectorExpr:
+				if id, ok := f.X.(*ast.Ident); ok {
+					into[id.Name+"."+f.Sel.Name] = true
+				} else if inner, ok := f.X.(*ast.SelectorExpr); ok {
+					into[inner.Sel.Name+"."+f.Sel.Name] = true
+				} else {
+					into["_."+f.Sel.Name] = true
+				}
+			}
+		}
+		return true
+	})
+}
+
 func main() {
 	if len(os.Args) != 3 {
 		fmt.Fprintln(os.Stderr, "usage: facts <package dir> <LeanModuleName>")
@@ -88,25 +111,9 @@ func main() {
 				if typ == "" {
 					typ = "func" // plain function
 				}
-				m := &method{recvType: typ, name: fd.Name.Name, fields: map[string]bool{}, calls: map[string]bool{}, prelock: map[string]bool{}, callNames: map[string]bool{}}
+				m := &method{recvType: typ, name: fd.Name.Name, fields: map[string]bool{}, calls: map[string]bool{}, prelock: map[string]bool{}, callNames: map[string]bool{}, prelockCalls: map[string]bool{}}
 				methods[typ+"."+fd.Name.Name] = m
-				ast.Inspect(fd.Body, func(n ast.Node) bool {
-					if x, ok := n.(*ast.CallExpr); ok {
-						switch f := x.Fun.(type) {
-						case *ast.Ident:
-							m.callNames[f.Name] = true
-						case *ast.SelectorExpr:
-							if id, ok := f.X.(*ast.Ident); ok {
-								m.callNames[id.Name+"."+f.Sel.Name] = true
-							} else if inner, ok := f.X.(*ast.SelectorExpr); ok {
-								m.callNames[inner.Sel.Name+"."+f.Sel.Name] = true
-							} else {
-								m.callNames["_."+f.Sel.Name] = true
-							}
-						}
-					}
-					return true
-				})
+				collectCalls(fd.Body, m.callNames)
 				if recv == "" {
 					continue
 				}
@@ -118,6 +125,7 @@ func main() {
 					if ok0 && ok1 && isCall(e0.X, recv, "Lock") && isCall(d1.Call, recv, "Unlock") {
 						m.locked = true
 						for _, pre := range st[:i] {
+							collectCalls(pre, m.prelockCalls)
 							ast.Inspect(pre, func(n ast.Node) bool {
 								if x, ok := n.(*ast.SelectorExpr); ok {
 									if id, ok := x.X.(*ast.Ident); ok && id.Name == recv {
@@ -201,6 +209,12 @@ func main() {
 		}
 		sort.Strings(pl)
 		fmt.Printf("/-- receiver fields `%s` touches before taking the lock -/\ndef %s_prelock : List String := [%s]\n", k, id, strings.Join(pl, ", "))
+		var pc []string
+		for c := range m.prelockCalls {
+			pc = append(pc, fmt.Sprintf("%q", c))
+		}
+		sort.Strings(pc)
+		fmt.Printf("/-- calls `%s` makes in the statements before it takes the lock -/\ndef %s_prelock_calls : List String := [%s]\n", k, id, strings.Join(pc, ", "))
 		var q []string
 		for _, f := range closure(m) {
 			q = append(q, fmt.Sprintf("%q", f))
